@@ -14,14 +14,14 @@ func init() { register("C08", "proof", checkC08) }
 // verdictSites: functions in which a branch on the result of a declassifying comparison is an accept/reject verdict
 // (closed table, one line of reason each; DESIGN 3/C08).
 var verdictSites = map[string]string{
-	"sm2.TestPrivateKey":                                   "key validity verdict (zero test, < n-1 test)",
-	"sm2/internal/fiat.(*SM2Element).SetBytes":             "canonical-encoding verdict: error return",
-	"sm2/internal/fiat.(*SM2ScalarElement).SetBytes":       "canonical-encoding verdict: error return",
-	"sm2/internal.(*SM2Point).bytes":                       "infinity has a different (1-byte) encoding by definition of SEC1",
-	"sm2/internal.(*SM2Point).GetAffineX":                  "infinity has no affine x: documented 0 result",
-	"sm2/internal.(*SM2Point).GetAffineX_Unsafe":           "infinity has no affine x: documented 0 result",
-	"sm2/internal.Sm2CheckOnCurve":                         "on-curve verdict: error return",
-	"sm2/internal.(*SM2Point).SetBytes":                    "decoding verdicts: error return",
+	"sm2.TestPrivateKey":                             "key validity verdict (zero test, < n-1 test)",
+	"sm2/internal/fiat.(*SM2Element).SetBytes":       "canonical-encoding verdict: error return",
+	"sm2/internal/fiat.(*SM2ScalarElement).SetBytes": "canonical-encoding verdict: error return",
+	"sm2/internal.(*SM2Point).bytes":                 "infinity has a different (1-byte) encoding by definition of SEC1",
+	"sm2/internal.(*SM2Point).GetAffineX":            "infinity has no affine x: documented 0 result",
+	"sm2/internal.(*SM2Point).GetAffineX_Unsafe":     "infinity has no affine x: documented 0 result",
+	"sm2/internal.Sm2CheckOnCurve":                   "on-curve verdict: error return",
+	"sm2/internal.(*SM2Point).SetBytes":              "decoding verdicts: error return",
 }
 
 func c08Seeds(p *Prog, r *Report, t *Taint) map[*ssa.Function]lbl {
